@@ -735,7 +735,17 @@ func checkCompareSeq(p *Prog, r *Rule, cmp *ssa.Function) {
 				desc := fmt.Sprintf("epochs %d,%d upstream-cmp %d revision-cmp %d", ep[0], ep[1], ru, rr)
 				for _, o := range out {
 					if o.Status != stRet {
-						r.undecided("version.Compare", p.Pos(fn.Pos()), desc+": "+o.Msg+fmt.Sprint(calls))
+						// Compare looks into its operands itself (opaque operand tokens cannot be indexed): the bounded
+						// comparison of Compare as a whole decides the composition
+						why := desc + ": " + o.Msg + fmt.Sprint(calls)
+						switch b := compareWhole(p); {
+						case b.undecided != "":
+							r.undecided("version.Compare", p.Pos(fn.Pos()), why+"; bounded comparison of Compare: "+b.undecided)
+						case len(b.problems) > 0:
+							r.bad("version.Compare", p.Pos(fn.Pos()), b.problems[0], b.problems)
+						default:
+							r.ok("version.Compare", p.Pos(fn.Pos()), fmt.Sprintf("(bounded: Compare does more than compose its sub-comparisons: %s) Compare agrees in sign with the reference order on %d pairs of versions", clip(o.Msg, 80), b.pairs))
+						}
 						return
 					}
 					got, ok := o.Ret.(int64)
